@@ -35,7 +35,12 @@ def decide(pid, tier, units, scratch, run_unit):
     with ThreadPoolExecutor(max_workers=workers) as ex:
         futs = [(u, ex.submit(run_unit, u, scratch, tier)) for u in sel]
         for u, f in futs:
-            for r in f.result():
+            try:
+                rs = f.result()
+            except Exception as e:      # a defect of the machinery itself decides nothing: undecided (exit 2), never an alarm
+                import traceback
+                rs = [dict(unit=u['name'], variant='-', status='undecided', reason='internal error of the check: %s: %s | %s' % (type(e).__name__, e, traceback.format_exc()[-600:].replace('\n', ' / ')), obligations=[])]
+            for r in rs:
                 results.append((u, r))
     for u, r in results:
         cc = r.get('crosscheck')
